@@ -147,6 +147,11 @@ def c13_cases(tier, rng):
     # residues chosen to hit every link / queue of the pool
     for pool in (2, 3):
         add([st(n, pool * 7 + k, 30 + k) for k in range(pool)] , pool=pool, delay="rotate")
+    # residues at the wrap points of the arithmetic: the receive queue is order mod (4 x pool), the link is order mod pool - a residue that is a
+    # multiple of either must still have one queue / one link of its own (big messages between small ones make an overtaking visible)
+    for pool in (1, 2, 3):
+        q = 4 * pool
+        add([st(n // 2, rs(), q, big=48000), st(n // 2, rs(), 2 * q, "name", big=48000), st(n // 2, pool, rs(), big=20000), st(n // 2, 2 * pool, q * 3, big=20000)], pool=pool, delay=rng.choice(["", "rotate"]))
     # compressed big messages between small plain ones (the envelope must keep the receiver's queue); residues that map to different queues
     for comp in ("gzip", "zlib", "lzw"):
         add([st(n // 4, 3, 8, comp=comp, big=rng.choice([3000, 20000, 200000])), st(n // 4, 17, 30, "name", comp=comp, big=5000)], pool=rng.choice([1, 3]), delay=rng.choice(["", "rotate"]))
